@@ -125,7 +125,9 @@ func (c *NoiseConn) Read(b []byte) (n int, err error) {
 	// maintain an intermediate read buffer. If this buffer becomes
 	// depleted, then we read the next record, and feed it into the
 	// buffer. Otherwise, we read directly from the buffer.
-	if c.readBuf.Len() == 0 {
+	// A record may be empty; reading an empty buffer would report io.EOF in
+	// the middle of the stream, so keep going until there is data.
+	for c.readBuf.Len() == 0 && len(b) > 0 {
 		plaintext, err := c.noise.ReadMessage(c.conn)
 		if err != nil {
 			return 0, err
